@@ -5,6 +5,7 @@ validation of region classes.
 """
 
 import abc
+import numbers
 
 import numpy as np
 from astropy.coordinates import SkyCoord
@@ -88,7 +89,8 @@ class PositiveScalar(RegionAttribute):
                              'float')
 
         if (not np.isscalar(value) or value <= 0
-                or not np.isfinite(value)):
+                or not (isinstance(value, numbers.Integral)
+                        or np.isfinite(value))):
             raise ValueError(f'{self.name!r} must be a strictly positive '
                              'finite scalar')
 
